@@ -2,6 +2,7 @@ import GoPlugin.Props.C05
 import GoPlugin.Props.C04
 import GoPlugin.Props.C18
 import GoPlugin.Generated.Facts
+import GoPlugin.Props.Hygiene
 /- C05 at the facts extracted from the current source. -/
 namespace GoPlugin.Instance.C05
 open GoPlugin Props.C05
@@ -31,5 +32,8 @@ theorem holds_failed_runner_start_is_killed :
 /-- a custom-runner launch that fails before there is a runner leaves no socket directory (C18's fact) -/
 theorem holds_no_dir_without_runner : Resources.dirLeftWithoutRunner Facts.resources = false :=
   Props.C18.no_dir_without_runner _ (by decide)
+
+theorem holds_start_error_means_not_launched : Hygiene.launchedDespiteStartError Facts.hygiene = false :=
+  Props.Hygiene.start_error_means_not_launched _ (by decide)
 
 end GoPlugin.Instance.C05
